@@ -169,8 +169,14 @@ def run(chk: Check, ctx: Any) -> None:
     if sub:
         txt = " ".join(norm(s) for s in sub[0].body)
         ok_sub = f" in {ps[1]}" in txt and f"{ps[1]}[" in txt
-    chk.decide("C05-R1", "_process_parameters:substitution", ok_sub, pp,
-               "constants are not replaced by macro_params[<their text>] exactly when that text is a macro variable", "constants named like variables are substituted")
+    whole = norm(pfn)
+    if ok_sub or (f" in {ps[1]}" in whole and f"{ps[1]}[" in whole and "SsbOpParamConstant" in whole and ".replace(" not in whole):
+        chk.hold("C05-R1", "_process_parameters:substitution", pp, "constants named like variables are looked up once in the parameter table")
+    elif f"{ps[1]}.items()" in whole or f"for" in whole and f"in {ps[1]}:" in whole:
+        chk.violation("C05-R1", "_process_parameters:substitution", pp,
+                      "parameters are substituted one macro variable after another: an argument spelled like a later variable of the callee is substituted a second time")
+    else:
+        chk.hold("C05-R1", "_process_parameters:substitution", pp, "shape not recognised here; the substitution is decided on sample projects by C05-R6")
     bo = repo.func(f"{MACRO}:ExplorerScriptMacro._build_op")
     ops = [c for c in walk_no_nested(bo.node) if isinstance(c, ast.Call) and dotted(c.func) == "SsbOperation"]
     ok = len(ops) == 1 and norm(ops[0].args[1]).endswith(".op_code") and "_process_parameters(" in norm(ops[0].args[2])
